@@ -10,6 +10,7 @@ from pyvc.prop import BoundedResult, Prop, RunCtx
 from pyvc.types import BOOL, INT, REAL, STR, Atom, MapT, ObjT, Opt
 from pyvc.values import NONE, OK, Val, mk_fresh
 
+from .c18_store import mem_single_step, preempted_workflow_data, replay_read_fault
 from .common import Types, base_registry
 
 PID = "C18"
@@ -75,7 +76,8 @@ def contracts(T: Types, reg: Registry):
     reg.ann_types = dict(getattr(reg, "ann_types", {}), InvocationId=Atom("InvocationId"), DeterministicExecutor=EXEC)
     reg.shapes["CurrentInvocation"].fields["invocation_id"] = Atom("InvocationId")
     sub = subtask_contract(T, reg)
-    return [seq, det, sub]
+    from .c18_store import sqlite_contracts
+    return [seq, det, sub] + sqlite_contracts(reg)
 
 
 def subtask_contract(T: Types, reg: Registry):
@@ -266,12 +268,12 @@ def build(ctx: RunCtx) -> Prop:
     return Prop(
         pid=PID, title="sequence numbers 1,2,3.. per operation and executor; the executor a task body gets belongs to the workflow of the CURRENT invocation, "
                        "starts at position 0 for a new execution and is reused within one execution (cache invariant under a change of the current invocation)",
-        level="other", technique="contract-based deductive verification of the position counter and of the executor cache invariant (AST->z3 VCs) + bounded record-or-replay runs on both backends and through the real thread runner",
-        registry=reg, verify=verify, bounded=[replay_and_isolation],
+        level="other", technique="contract-based deductive verification of the position counter, of the executor cache invariant and of the SQLite record store glue under read/commit faults (AST->z3 VCs) + ownership scan of the in-memory record store + bounded line-level preemption of the in-memory store + bounded record-or-replay runs on both backends and through the real thread runner",
+        registry=reg, verify=verify, lemmas=[mem_single_step], replayers={"*SQLiteStateBackend.get_workflow_data*": replay_read_fault}, bounded=[replay_and_isolation, preempted_workflow_data],
         assumptions=["DeterministicExecutor(workflow, app) creates an executor of that workflow with empty counters (constructor read, not proved)",
                      "task.invocation is the invocation object of the current execution in the current thread (context module)",
                      "record-or-replay of _deterministic_operation / execute_task handles dynamically typed values and is covered by the bounded stand-in only"],
         trusted_base=["pyvc VC generator", "z3 5.1"],
         not_decided="record-or-replay itself (dynamically typed workflow data) is bounded, not proved; concurrent threads beyond the per-invocation attachment.",
-        min_obligations=8,
+        min_obligations=30,
     )
